@@ -53,6 +53,25 @@ fn owned(s: &str) -> Cow<'static, str> {
     Cow::Owned(s.to_owned())
 }
 
+/// The same description with every string borrowed from a static that is NOT part of the arena (what
+/// an in-process `TracingEventSender` hands over: `CallSiteData::from(&Metadata)` borrows from the
+/// guest's statics).  The strings are leaked: a few hundred bytes per case.
+fn borrowed(d: &CallSiteData) -> CallSiteData {
+    fn leak(s: &str) -> Cow<'static, str> {
+        Cow::Borrowed(Box::leak(s.to_owned().into_boxed_str()))
+    }
+    CallSiteData {
+        kind: d.kind.clone(),
+        name: leak(&d.name),
+        target: leak(&d.target),
+        level: d.level,
+        module_path: d.module_path.as_deref().map(leak),
+        file: d.file.as_deref().map(leak),
+        line: d.line,
+        fields: d.fields.iter().map(|f| leak(f)).collect(),
+    }
+}
+
 fn warm_descs() -> Vec<CallSiteData> {
     vec![CallSiteData {
         kind: CallSiteKind::Span,
@@ -209,6 +228,7 @@ fn execute(case: &Case) -> Vec<Obs> {
         let mut recvs: Vec<TracingEventReceiver> = (0..case.nrecv).map(|_| TracingEventReceiver::default()).collect();
         let mut canon: HashMap<usize, u64> = HashMap::new();
         let mut span_id = 0u64;
+        let mut announced: std::collections::HashSet<String> = Default::default();
         for step in &case.steps {
             let m0 = verif_hooks::LEAKED_METADATA.load(Ordering::SeqCst);
             let s0 = verif_hooks::LEAKED_STRINGS.load(Ordering::SeqCst);
@@ -251,10 +271,12 @@ fn execute(case: &Case) -> Vec<Obs> {
                             racer_fault = 1000;
                         }
                     } else {
-                        recvs[*r]
-                            .try_receive(TracingEvent::NewCallSite { id: *id, data: d.clone() })
-                            .expect("announcement rejected");
+                        // a description that was announced before in this case is handed over with borrowed
+                        // strings (none of them is new to the arena, so the leak counters are not concerned)
+                        let data = if announced.contains(&serde_json::to_string(d).unwrap()) { borrowed(d) } else { d.clone() };
+                        recvs[*r].try_receive(TracingEvent::NewCallSite { id: *id, data }).expect("announcement rejected");
                     }
+                    announced.insert(serde_json::to_string(d).unwrap());
                     (*r, Some(*id), true)
                 }
                 Step::RestoreFrom { dst, src } => {
